@@ -4,7 +4,7 @@ s2n_quic_core::sync::spsc channel driven single-threaded (C17, sequential part).
 protocol: new <c> | push <k> <v> | apush <k> <v> | pop <k> | apop <k> | dropsend | droprecv | stat
 """
 
-PUSHY = ("push", "apush")
+PUSHY = ("push", "apush", "extend")
 POPPY = ("pop", "apop")
 
 
@@ -53,6 +53,9 @@ def _fixed():
     H.append(["new 8", "push 6 1", "push 6 7", "push 6 13", "stat", "apop 4", "dropsend", "apop 20", "apop 1", "droprecv"])
     # both pending at once is impossible sequentially, but both wakers registered over time
     H.append(["new 1", "apop 1", "apush 1 1", "stat", "apush 1 2", "stat", "apop 1", "stat", "apop 1", "stat", "dropsend", "stat", "droprecv"])
+    # the bulk form: an iterator longer than the free space while the queue is not empty (must stop at capacity)
+    H.append(["new 4", "push 2 1", "stat", "extend 9 3", "stat", "pop 3", "extend 9 12", "stat", "pop 9", "stat", "extend 0 30", "extend 2 30", "pop 9", "stat"])
+    H.append(["new 2", "extend 5 1", "stat", "pop 1", "extend 5 6", "pop 5", "stat", "dropsend", "droprecv"])
     # protocol edges
     H.append(["stat", "push 1 1", "pop 1", "dropsend", "new 0", "new 65", "new 64", "stat", "push 6 1", "new 2", "stat", "pop 1",
               "dropsend", "dropsend", "push 1 1", "apush 1 1", "droprecv", "droprecv", "pop 1", "apop 1", "stat", "bogus", "push 1", "pop"])
@@ -83,7 +86,7 @@ def _random_history(rng):
             continue
         kinds = []
         if send or rng.random() < 0.03:
-            kinds += ["push", "push", "apush", "apush"]
+            kinds += ["push", "push", "apush", "apush", "extend"]
         if recv or rng.random() < 0.03:
             kinds += ["pop", "pop", "apop", "apop"]
         kinds += ["stat"]
@@ -209,7 +212,7 @@ def oracle(ops, outs):
                         fail(i, "spsc:push:closed-mismatch", "receiver is gone: the sender must see the channel closed")
                     continue
                 full = len(h.fifo) == h.cap
-                blocked = "ok none" if t[0] == "push" else "ok pending"
+                blocked = "ok none" if t[0] in ("push", "extend") else "ok pending"
                 if out == "err closed":
                     fail(i, "spsc:push:closed-mismatch", "closed reported although the receiver is alive")
                     continue
